@@ -2,6 +2,7 @@ package props
 
 import (
 	"fmt"
+	"go/types"
 	"strings"
 
 	"golang.org/x/tools/go/ssa"
@@ -348,6 +349,20 @@ func (c *Ctx) matchQosMin() {
 			if !ok {
 				continue
 			}
+			// the two appends moved into one helper that extends both lists
+			if vals := pairAppendArgs(call); vals != nil {
+				for _, v := range vals {
+					nApp++
+					if bt, isB := v.Type().Underlying().(*types.Basic); isB && bt.Kind() == types.Uint8 {
+						if isMinOf(v, func(x ssa.Value) bool { return x == qosParam }, func(x ssa.Value) bool { return isLoopElemOfField(x, "qos", l) }) {
+							okMin = true
+						}
+					} else {
+						okSub = elementOf(v, l)
+					}
+				}
+				continue
+			}
 			bi, ok := call.Common().Value.(*ssa.Builtin)
 			if !ok || bi.Name() != "append" {
 				continue
@@ -380,4 +395,89 @@ func (c *Ctx) matchQosMin() {
 	}
 	c.R.Check(okMin, "T7-min-idiom", "matchQos:delivery-qos=min(publish,granted)", c.P.Pos(fn.Pos()), "the QoS reported for a subscriber is min(publish QoS, that subscriber's granted QoS)", "the QoS reported for a subscriber is not min(publish QoS, qos[i]) evaluated afresh for each subscriber")
 	c.R.Check(okSub && nApp == 2, "T7-min-idiom", "matchQos:parallel-lists", c.P.Pos(fn.Pos()), "one subscriber and one QoS are appended per element, from the same index", "subscriber list and QoS list are not appended pairwise from the same element")
+}
+
+// isLoopElemOfField: x is field[i] with i the index of loop l's element.
+func isLoopElemOfField(x ssa.Value, field string, l *ir.Loop) bool {
+	u, ok := x.(*ssa.UnOp)
+	if !ok {
+		return false
+	}
+	ia, ok := u.X.(*ssa.IndexAddr)
+	if !ok {
+		return false
+	}
+	p := ir.PathOf(ia.X)
+	return len(p.Fields) > 0 && p.Fields[len(p.Fields)-1] == field && sameIndexAsElement(ia.Index, l)
+}
+
+// pairAppendArgs: the call is to a small library helper whose whole effect is to append one of its parameters to
+// each of two lists (`appendSub(&subs, &qoss, sub, qos)`); returns the two arguments appended.
+func pairAppendArgs(call *ssa.Call) []ssa.Value {
+	h := call.Common().StaticCallee()
+	if h == nil || h.Blocks == nil || len(h.Blocks) != 1 || call.Common().IsInvoke() {
+		return nil
+	}
+	var out []ssa.Value
+	napp := 0
+	for _, in := range h.Blocks[0].Instrs {
+		c2, ok := in.(*ssa.Call)
+		if !ok {
+			continue
+		}
+		bi, ok := c2.Common().Value.(*ssa.Builtin)
+		if !ok || bi.Name() != "append" {
+			return nil // calls something else: not a pure pair-append
+		}
+		napp++
+		v := appendedByte(c2)
+		if v == nil {
+			v = appendedOne(c2)
+		}
+		p, isP := v.(*ssa.Parameter)
+		if !isP {
+			return nil
+		}
+		for i, q := range h.Params {
+			if q == p && i < len(call.Common().Args) {
+				out = append(out, call.Common().Args[i])
+			}
+		}
+	}
+	if napp != 2 || len(out) != 2 {
+		return nil
+	}
+	return out
+}
+
+// appendedOne: the single value appended by append(s, v) (any element type).
+func appendedOne(call *ssa.Call) ssa.Value {
+	a := call.Common().Args
+	if len(a) != 2 {
+		return nil
+	}
+	sl, ok := a[1].(*ssa.Slice)
+	if !ok {
+		return nil
+	}
+	al, ok := sl.X.(*ssa.Alloc)
+	if !ok || al.Referrers() == nil {
+		return nil
+	}
+	var val ssa.Value
+	n := 0
+	for _, ref := range *al.Referrers() {
+		if ia, ok := ref.(*ssa.IndexAddr); ok && ia.Referrers() != nil {
+			for _, r2 := range *ia.Referrers() {
+				if st, ok := r2.(*ssa.Store); ok {
+					val = st.Val
+					n++
+				}
+			}
+		}
+	}
+	if n != 1 {
+		return nil
+	}
+	return val
 }
